@@ -217,6 +217,10 @@ func (r *Run) sink(src any, ev string, kv ...int) {
 	case "rx":
 		r.Rec.Emit(ev, "ep", ep, "k", KindName(byte(kv[0])), "seq", kv[1],
 			"len", kv[2])
+	case "gtx":
+		// the packet as handed to the transport: the harness transport
+		// (vnet) records the same thing as "tx"
+		return
 	case "setN":
 		r.Rec.Emit(ev, "ep", ep, "n", kv[0])
 	case "pongTimeout":
